@@ -282,7 +282,7 @@ func (s *inst) observe() *mc.Failure {
 		return mc.Failf(0, "contents (via Peek) %v are not the multiset %v", d, s.ref)
 	}
 	var each []int
-	s.q.Each(func(v int) bool { each = append(each, v); return true })
+	s.q.Each(func(v int) bool { each = append(each, v); return len(each) <= len(d)+2 })
 	if !eqInts(each, d) {
 		return mc.Failf(0, "Each=%v but Peek order=%v", each, d)
 	}
